@@ -48,6 +48,10 @@ type WorkerPool struct {
 
 	// startMutex serializes Start calls, so that Start can wait for a previous shutdown without holding mutex.
 	startMutex syncutils.Mutex
+
+	// submitMutex lets Shutdown wait for Submit calls that have already passed the running check, so that their tasks
+	// are counted and queued before the dispatcher is told to drain the queue and exit.
+	submitMutex syncutils.RWMutex
 }
 
 // New creates a new WorkerPool with the given name and returns it.
@@ -92,6 +96,11 @@ func (w *WorkerPool) Start() *WorkerPool {
 
 // Submit submits a new task to the WorkerPool.
 func (w *WorkerPool) Submit(workerFunc func(), optStackTrace ...string) {
+	// Held until the task is queued: a concurrent Shutdown either happens before the running check (the task is
+	// rejected) or after the push (the dispatcher still drains it).
+	w.submitMutex.RLock()
+	defer w.submitMutex.RUnlock()
+
 	if !w.IsRunning() {
 		if w.optPanicOnSubmitAfterShutdown {
 			panic(fmt.Sprintf("worker pool '%s' is not running", w.Name))
@@ -159,6 +168,10 @@ func (w *WorkerPool) WorkerCount() int {
 
 // Shutdown shuts down the WorkerPool.
 func (w *WorkerPool) Shutdown() *WorkerPool {
+	// wait for in-flight Submit calls (see Submit)
+	w.submitMutex.Lock()
+	defer w.submitMutex.Unlock()
+
 	w.mutex.Lock()
 
 	wasRunning := w.isRunning
